@@ -56,3 +56,27 @@ def calls_role(F, body, *roles):
         except AnchorMissing:
             pass
     return [c for c in body.calls if c.callee in paths]
+
+
+def process_commands(F):
+    return F.resolve(r'^actor::model::ActorModel::<A, C, H>::process_commands$',
+                     lambda b: any(sw.kind == 'variant' and
+                                   set(l for (l, t) in sw.edges if isinstance(l, str)) >= {'Send', 'SetTimer', 'CancelTimer', 'ChooseRandom'}
+                                   for sw in b.switches) and bool(b.calls_to('Network::send')),
+                     'ActorModel::process_commands', scope='actor::model::')
+
+
+def reconstruct_path(F, mod):
+    return F.resolve(r'^checker::%s::reconstruct_path$' % mod,
+                     lambda b: bool(b.calls_to('Path::from_fingerprints')) and bool(b.calls_to('DashMap::get')),
+                     'reconstruct_path of checker::%s' % mod, scope='checker::%s::' % mod)
+
+
+def is_reconstruct_path_call(F, c):
+    for mod in ('bfs', 'on_demand'):
+        try:
+            if c.callee == reconstruct_path(F, mod).path:
+                return True
+        except AnchorMissing:
+            pass
+    return False
